@@ -255,6 +255,8 @@ impl<T> Signal<T> {
 
     /// Wakes the sleeping thread or coroutine
     unsafe fn wake(this: *const Self, state: u8) {
+        #[cfg(feature = "verif")]
+        crate::verif::at(crate::verif::SITE_WAKE_ENTRY);
         match &(*this).waker {
             KanalWaker::Sync(waker) => {
                 if (*this)
